@@ -113,6 +113,17 @@ void cm_emit(cm_model_t *m) {
 		if (t->ncal) { AP(m->train_txt, "    calibration:\n"); for (int k = 0; k < t->ncal; k++) AP(m->train_txt, "      - %d\n", t->cal[k]); }
 		if (t->nper) { AP(m->train_txt, "    peripherals:\n"); for (int k = 0; k < t->nper; k++) { AP(m->train_txt, "      - id: %s\n        bit: %d\n", t->per[k].id, t->per[k].bit); if (t->per[k].has_initial) AP(m->train_txt, "        initial: %d\n", t->per[k].initial); } }
 	}
+	if (m->num_style) { char *txt[3] = {m->board_txt, m->track_txt, m->train_txt};
+		/* exactly two hex digits = a byte-sized value; unique ids (14 digits), DCC addresses and ports (4 digits) stay hexadecimal */
+		for (int f = 0; f < 3; f++) { char *w = txt[f];
+			for (char *c = txt[f]; *c; ) {
+				int h1, h2; 
+				#define HX(ch) ((ch) >= '0' && (ch) <= '9' ? (ch) - '0' : (ch) >= 'a' && (ch) <= 'f' ? (ch) - 'a' + 10 : (ch) >= 'A' && (ch) <= 'F' ? (ch) - 'A' + 10 : -1)
+				if (c[0] == '0' && c[1] == 'x' && (h1 = HX(c[2])) >= 0 && (h2 = HX(c[3])) >= 0 && HX(c[4]) < 0 && (c == txt[f] || c[-1] == ' ')) {
+					w += sprintf(w, m->num_style == 2 ? "%03d" : "%d", h1 * 16 + h2); c += 4; }
+				else *w++ = *c++;
+			}
+			*w = 0; } }
 	if (m->hex_case) { char *txt[3] = {m->board_txt, m->track_txt, m->train_txt};
 		for (int f = 0; f < 3; f++) for (char *c = txt[f]; *c; c++) if (c[0] == '0' && c[1] == 'x') { for (c += 2; (*c >= '0' && *c <= '9') || (*c >= 'a' && *c <= 'f') || (*c >= 'A' && *c <= 'F'); c++) { if (m->hex_case == 1 && *c >= 'a' && *c <= 'f') *c -= 32; if (m->hex_case == 2 && *c >= 'A' && *c <= 'F') *c += 32; } c--; } }
 }
